@@ -14,9 +14,9 @@
     - [WriteMulti] checks the limit against [Size()+added] first, optimistically
       adds [added], subtracts a key's batch again on a type conflict, adds
       [len key] for a newly created key;
-    - [entry.add] checks types only against the HOT entry's [vtype] (0 = entry was
-      created by an empty write: no check at all); [newEntryValues] requires a
-      homogeneous batch;
+    - [entry.add] checks types only against the HOT entry's [vtype]; an entry without
+      values (created by an empty write, [vtype] 0) requires a homogeneous batch, like
+      [newEntryValues] for a new key;
     - [Snapshot]: error when snapshotting; the retry path (snapshot size > 0)
       returns the old snapshot without swapping; otherwise swap, snapshotSize :=
       Size(), size := 0;
@@ -132,7 +132,8 @@ Definition entry_add (e : entry) (vs : list point) : option entry :=
   | p :: _ =>
       if negb (N.eqb (evtype e) 0) && negb (all_type (evtype e) vs) then None
       else match evals e with
-           | [] => Some {| evals := vs; evtype := ptype p |}
+           | [] => (* no type recorded yet: the batch must be homogeneous, as in newEntryValues *)
+                   if all_type (ptype p) vs then Some {| evals := vs; evtype := ptype p |} else None
            | _ => Some {| evals := evals e ++ vs; evtype := evtype e |}
            end
   end.
